@@ -65,6 +65,9 @@ def alpha(f: Func, e: ast.AST) -> str:
             val = None
             if isinstance(par, ast.Assign) and n in par.targets:
                 val = par.value
+                if isinstance(val, ast.BinOp) and isinstance(val.op, (ast.Add, ast.Sub)) and (
+                        (isinstance(val.left, ast.Name) and val.left.id == n.id) or (isinstance(val.right, ast.Name) and val.right.id == n.id)):
+                    continue          # x = x + e: a self-update, described like `x += e`
             elif isinstance(par, ast.AnnAssign) and par.target is n:
                 val = par.value
             elif isinstance(par, ast.AugAssign):
